@@ -32,7 +32,17 @@ Record case := { c_cfg : cfg; c_viapk : bool; c_spar : list N; c_payload : N; c_
 (* randomness names outside the harness's key names (ephemeral keys are key names too) *)
 Definition rnd0 := mkrnd 100000 100001 100002.
 
+(* the kid resolver of KeyRef.v, run on the reference strings against the documents, names the keys the abstract
+   model is given (the unpack results compared below depend on exactly that) *)
+Fixpoint refs_resolve (d : directory) (rrs : list ref) (ks : list N) : bool :=
+  match rrs, ks with
+  | [], [] => true
+  | r :: rr, k :: kk => match dr_resolve Fixed d r with RKey k' => (k' =? k) && refs_resolve d rr kk | _ => false end
+  | _, _ => false
+  end.
+
 Definition check_case (c : case) : bool :=
+  match c_refs c with Some (d, _, rrs) => refs_resolve d rrs (c_rcpts c) | None => true end &&
   match (match c_refs c with
          | Some (d, sr, rrs) => pack_msg d (c_cfg c) (c_spar c) (c_payload c) sr rrs rnd0
          | None => pack (c_cfg c) (c_spar c) (c_payload c) (c_sender c) (c_rcpts c) rnd0
